@@ -6,6 +6,7 @@ use crate::alloc;
 use crate::ctx::{violate, Ctx};
 use crate::engine::*;
 use crate::monitor::*;
+use crate::monitor::NullBuilder;
 use crate::rdrv::*;
 use crate::rng::Rng;
 use crate::sdrv::*;
@@ -64,6 +65,8 @@ pub enum FaultKind {
     ShortDatagrams { b0: u8 },
     /// every value of the byte at `pos` of packet `pkt`
     AllValues { pkt: usize, pos: usize },
+    /// every value of the byte at `pos` of a foreign (harness-encoded) packet, after pushing `context`
+    AllValuesForeign { context: Vec<Vec<u8>>, pkt: Vec<u8>, pos: usize },
 }
 
 #[derive(Clone, Debug, PartialEq, Serialize, Deserialize)]
@@ -78,6 +81,10 @@ pub struct Scn {
     pub sender: SenderScn,
     pub recv: RecvSpec,
     pub faults: Vec<Fault>,
+    /// enumerations: give EVERY substituted value its own fresh receiver (thorough); otherwise only
+    /// when the packet is the first one of its object / FDT instance (where header fields define state)
+    #[serde(default)]
+    pub fresh_all: bool,
 }
 
 pub struct C04;
@@ -130,11 +137,45 @@ pub fn corpus() -> Vec<SenderScn> {
     v
 }
 
+/// Packets a flute sender never emits: the Reed-Solomon GF(2^m) scheme (FEC 2, parsed but not implemented)
+/// with and without FDT, written by the harness encoder. (context, packet)
+pub fn foreign() -> Vec<(Vec<Vec<u8>>, Vec<u8>)> {
+    let tsi = 7u64;
+    let mk = |toi: u128, esi: u32, with_fti: bool| -> Vec<u8> {
+        let (tl, ol) = wire::field_lens(tsi, toi);
+        wire::encode(&Build {
+            cci_words: 1,
+            tsi,
+            tsi_len: tl,
+            toi,
+            toi_len: ol,
+            cp: wire::FEC_RS2M,
+            fti: if with_fti {
+                Some(wire::Fti { fec: wire::FEC_RS2M, transfer_length: 64, e: 16, b: Some(4), max_n: Some(6), instance_id: None, z: Some(8), n: Some(1), al: None })
+            } else {
+                None
+            },
+            sbn: 0,
+            esi,
+            payload: vec![0x44; 16],
+            ..Default::default()
+        })
+    };
+    let xml = "<?xml version=\"1.0\" encoding=\"UTF-8\"?><FDT-Instance xmlns=\"urn:IETF:metadata:2005:FLUTE:FDT\" Expires=\"4000000000\"><File TOI=\"9\" Content-Location=\"file:///gf2m\" Content-Length=\"64\" Transfer-Length=\"64\" FEC-OTI-FEC-Encoding-ID=\"2\" FEC-OTI-Maximum-Source-Block-Length=\"4\" FEC-OTI-Encoding-Symbol-Length=\"16\" FEC-OTI-Max-Number-of-Encoding-Symbols=\"6\" FEC-OTI-Scheme-Specific-Info=\"CAE=\"/></FDT-Instance>";
+    let fdt = wire::packetise_fdt(xml.as_bytes(), tsi, 77, 1400, None, None);
+    vec![
+        (vec![], mk(8, 0, true)),
+        (vec![mk(8, 0, true)], mk(8, 1, true)),
+        (fdt.clone(), mk(9, 0, false)),
+        (fdt.clone(), mk(9, 1, true)),
+    ]
+}
+
 const HDR_POS_MAX: u64 = 72; // header region positions enumerated per packet
 const PKT_MAX: u64 = 24;
 
 fn n_enum() -> u64 {
-    256 + corpus().len() as u64 * PKT_MAX * HDR_POS_MAX
+    256 + corpus().len() as u64 * PKT_MAX * HDR_POS_MAX + foreign().len() as u64 * 48
 }
 
 pub fn hostile_xml(rng: &mut Rng, base: &str) -> String {
@@ -245,7 +286,7 @@ fn gen_field_edits(rng: &mut Rng) -> Vec<FieldEdit> {
     v
 }
 
-pub fn gen(idx: u64, rng: &mut Rng, _tier: Tier) -> Scn {
+pub fn gen(idx: u64, rng: &mut Rng, tier: Tier) -> Scn {
     let corp = corpus();
     let mut recv = RecvSpec::basic();
     recv.cache_size = Some(64 * 1024);
@@ -256,9 +297,22 @@ pub fn gen(idx: u64, rng: &mut Rng, _tier: Tier) -> Scn {
             sender: corp[(idx % corp.len() as u64) as usize].clone(),
             recv,
             faults: vec![Fault { at: (idx % 5) as usize, kind: FaultKind::ShortDatagrams { b0: idx as u8 } }],
+            fresh_all: false,
         };
     }
-    if idx < n_enum() {
+    let n_own = 256 + corp.len() as u64 * PKT_MAX * HDR_POS_MAX;
+    if idx >= n_own && idx < n_enum() {
+        let k = idx - n_own;
+        let f = foreign();
+        let (context, pkt) = f[(k / 48) as usize].clone();
+        return Scn {
+            sender: corp[0].clone(),
+            recv,
+            faults: vec![Fault { at: 1, kind: FaultKind::AllValuesForeign { context, pkt, pos: (k % 48) as usize } }],
+            fresh_all: true,
+        };
+    }
+    if idx < n_own {
         let k = idx - 256;
         let s = (k / (PKT_MAX * HDR_POS_MAX)) as usize;
         let pkt = ((k / HDR_POS_MAX) % PKT_MAX) as usize;
@@ -267,6 +321,7 @@ pub fn gen(idx: u64, rng: &mut Rng, _tier: Tier) -> Scn {
             sender: corp[s].clone(),
             recv,
             faults: vec![Fault { at: pkt, kind: FaultKind::AllValues { pkt, pos } }],
+            fresh_all: tier == Tier::Thorough,
         };
     }
     // sampled mutation sequences of whole sessions
@@ -303,7 +358,7 @@ pub fn gen(idx: u64, rng: &mut Rng, _tier: Tier) -> Scn {
         };
         faults.push(Fault { at: rng.below(40) as usize, kind });
     }
-    Scn { sender, recv, faults }
+    Scn { sender, recv, faults, fresh_all: false }
 }
 
 fn apply_edits(d: &wire::Decoded, raw: &[u8], edits: &[FieldEdit]) -> Vec<u8> {
@@ -457,6 +512,52 @@ impl Pusher<'_> {
     }
 }
 
+/// One substituted value in its own receiver: context, the mutated packet, then a few valid packets so that
+/// the state the mutated header created is exercised. Only the crash / loop-budget / allocation oracles apply.
+/// Values tried with a fresh receiver each: all 255 others in thorough; in quick the boundary values and
+/// every single-bit flip (the shared-receiver pass still tries all 255)
+fn fresh_values(orig: u8, all: bool) -> Vec<u8> {
+    let mut v: Vec<u8> = if all {
+        (0..=255u8).collect()
+    } else {
+        let mut v = vec![0u8, 1, 2, 3, 4, 5, 6, 7, 8, 15, 16, 17, 31, 32, 33, 63, 64, 65, 127, 128, 129, 191, 192, 193, 254, 255];
+        for b in 0..8 {
+            v.push(orig ^ (1 << b));
+        }
+        v.push(orig.wrapping_add(1));
+        v.push(orig.wrapping_sub(1));
+        v
+    };
+    v.sort();
+    v.dedup();
+    v.retain(|x| *x != orig);
+    v
+}
+
+fn fresh_variant(scn: &Scn, ctx: &Ctx, context: &[&[u8]], mutated: &[u8], after: &[&[u8]], what: &str) {
+    let builder = std::rc::Rc::new(NullBuilder::default());
+    let mut recv = flute::receiver::MultiReceiver::new(builder, Some(scn.recv.config()), false);
+    let ep = scn.sender.spec.endpoint.build();
+    let mut t = t0_us();
+    alloc::reset_marks();
+    for b in context.iter().chain(std::iter::once(&mutated)).chain(after.iter()) {
+        t += 100;
+        flute::verif::clock::set(std::time::Duration::from_micros(t - t0_us()));
+        flute::verif::reset_loop_budget(crate::rdrv::LOOP_BUDGET);
+        let _ = recv.push(&ep, b, systime_us(t));
+    }
+    recv.cleanup(systime_us(t));
+    drop(recv);
+    if alloc::largest() > ALLOC_LIMIT {
+        violate(
+            ctx,
+            "C04/huge-allocation",
+            "-",
+            format!("{}: a single allocation of {} bytes (receiver configured with a 64 KiB object cache)", what, alloc::largest()),
+        );
+    }
+}
+
 pub fn run(scn: &Scn, ctx: &Ctx, scratch: &Path) {
     let sess = match run_sender(&scn.sender, ctx, scratch) {
         Some(s) => s,
@@ -559,6 +660,37 @@ pub fn run(scn: &Scn, ctx: &Ctx, scratch: &Path) {
                     ctx.borrow_mut().count_fault("inject-short-datagrams");
                     fired += 1;
                 }
+                FaultKind::AllValuesForeign { context, pkt, pos } => {
+                    for c in context {
+                        p.what = "foreign context packet".into();
+                        p.push(c, true);
+                    }
+                    p.what = "foreign packet".into();
+                    p.push(pkt, true);
+                    if *pos < pkt.len() {
+                        for v in 0..=255u8 {
+                            if v == pkt[*pos] {
+                                continue;
+                            }
+                            let mut b = pkt.clone();
+                            b[*pos] = v;
+                            p.what = format!("foreign RS GF(2^m) packet byte {} := {:#04x}", pos, v);
+                            p.push(&b, true);
+                        }
+                        ctx.borrow_mut().count_fault("mutate-foreign-all-values");
+                        fired += 1;
+                        let cx: Vec<&[u8]> = context.iter().map(|c| c.as_slice()).collect();
+                        let after: Vec<&[u8]> = vec![pkt.as_slice()];
+                        for v in 0..=255u8 {
+                            if v == pkt[*pos] {
+                                continue;
+                            }
+                            let mut b = pkt.clone();
+                            b[*pos] = v;
+                            fresh_variant(scn, ctx, &cx, &b, &after, &format!("fresh receiver: foreign RS GF(2^m) packet byte {} := {:#04x}", pos, v));
+                        }
+                    }
+                }
                 FaultKind::AllValues { pkt, pos } => {
                     if let Some(e) = sess.trace.pkts.get(*pkt) {
                         if *pos < e.dec.payload_off.min(e.bytes.len()) {
@@ -574,6 +706,20 @@ pub fn run(scn: &Scn, ctx: &Ctx, scratch: &Path) {
                             }
                             ctx.borrow_mut().count_fault("mutate-header-all-values");
                             fired += 1;
+                            // header fields of the first packet of an object / FDT instance define state
+                            // (OTI, transfer length, cenc, instance id): later copies are ignored, so each
+                            // value gets its own receiver there
+                            let first_of_toi = !sess.trace.pkts[..*pkt].iter().any(|q| q.dec.toi == e.dec.toi && q.dec.fdt == e.dec.fdt);
+                            if scn.fresh_all || first_of_toi {
+                                let context: Vec<&[u8]> = sess.trace.pkts[..*pkt].iter().map(|q| q.bytes.as_slice()).collect();
+                                let after: Vec<&[u8]> = sess.trace.pkts[*pkt..].iter().take(4).map(|q| q.bytes.as_slice()).collect();
+                                for v in fresh_values(orig, scn.fresh_all) {
+                                    let mut b = e.bytes.clone();
+                                    b[*pos] = v;
+                                    fresh_variant(scn, ctx, &context, &b, &after, &format!("fresh receiver: packet {} byte {} := {:#04x}", pkt, pos, v));
+                                }
+                                ctx.borrow_mut().count_fault("mutate-header-all-values-fresh-receiver");
+                            }
                         }
                     }
                 }
@@ -659,7 +805,7 @@ impl Prop for C04 {
     fn info(&self) -> PropInfo {
         PropInfo {
             level: "exploration",
-            rule: "part 1 (enumerated, both tiers): ALL datagrams of length <= 3 (16.8 M) pushed into receivers in the middle of valid sessions; EVERY single-byte substitution (255 values) at every position of the header region (LCT header, extensions, FEC payload id; first 72 bytes) of every packet of a 23-session corpus (5 FEC schemes x in-band/FDT-only signalling x cenc, FDT over No-Code/RS/RaptorQ/Raptor), each position in its own receiver in session context; part 2: seeded sequences of 1-50 faults interleaved with valid traffic: random bytes, byte mutation, truncation, extension, splices of two packets, field-aware edits (HDR_LEN, flags, codepoint, TSI/TOI, SBN/ESI/block length, every EXT_FTI field, EXT_FDT, EXT_CENC, raw EXT_TIME, unknown extensions, close flags, payload length) re-encoded by the harness encoder, and crafted FDT instances with rewritten attributes, deep nesting, entities, truncation, thousands of File entries. Oracle: no panic (overflow checks and debug assertions on), loop budget per call, no single allocation > 64 MiB and no heap growth > 256 MiB per push (counting allocator), worker abort/hang caught by process isolation; recovery: if every faulty packet was rejected the valid session on the SAME TSI must be delivered exactly, otherwise a valid session on a fresh TSI. Non-trivial: at least one fault fired.",
+            rule: "part 1 (enumerated, both tiers): ALL datagrams of length <= 3 (16.8 M) pushed into receivers in the middle of valid sessions; EVERY single-byte substitution (255 values) at every position of the header region (LCT header, extensions, FEC payload id; first 72 bytes) of every packet of a 23-session corpus (5 FEC schemes x in-band/FDT-only signalling x cenc, FDT over No-Code/RS/RaptorQ/Raptor), each position in its own receiver in session context; the same for harness-encoded packets of the Reed-Solomon GF(2^m) scheme (parsed by flute, never emitted by its sender), with in-band FTI and with an FDT announcing it; part 2: seeded sequences of 1-50 faults interleaved with valid traffic: random bytes, byte mutation, truncation, extension, splices of two packets, field-aware edits (HDR_LEN, flags, codepoint, TSI/TOI, SBN/ESI/block length, every EXT_FTI field, EXT_FDT, EXT_CENC, raw EXT_TIME, unknown extensions, close flags, payload length) re-encoded by the harness encoder, and crafted FDT instances with rewritten attributes, deep nesting, entities, truncation, thousands of File entries. Oracle: no panic (overflow checks and debug assertions on), loop budget per call, no single allocation > 64 MiB and no heap growth > 256 MiB per push (counting allocator), worker abort/hang caught by process isolation; recovery: if every faulty packet was rejected the valid session on the SAME TSI must be delivered exactly, otherwise a valid session on a fresh TSI. Non-trivial: at least one fault fired.",
             assumptions: vec!["a mutated packet that flute accepts (Ok) may legitimately change that session's state", "allocation limits: 64 MiB per allocation with a 64 KiB object cache configured"],
             real: vec!["MultiReceiver/Receiver and everything below incl. quick-xml deserialisation and all FEC decoders"],
             stub: vec!["network (adversarial)", "clocks", "monitoring writer", "global allocator (counting)"],
